@@ -97,6 +97,12 @@ class World:
 
     # ---------------------------------------------------------------- server
     def start(self):
+        gc = getattr(self, "server_gitconfig", None)
+        if gc:
+            # the git configuration of the account the server runs under (read by dulwich)
+            os.makedirs(os.path.join(self.base, "home"), exist_ok=True)
+            with open(os.path.join(self.base, "home", ".gitconfig"), "w") as f:
+                f.write(gc)
         if self.fe_kind == "wsgi":
             os.environ["HOME"] = os.path.join(self.base, "home")
             os.makedirs(os.environ["HOME"], exist_ok=True)
